@@ -125,3 +125,58 @@ Example C05_guard_nonvacuous :
   all_class_ok (chunk_of src_ok) = true /\ length (bind_file (chunk_of src_ok)) = 33%nat /\
   forallb (fun o => negb (deviates_at_start (chunk_of src_ok) o)) (bind_file (chunk_of src_ok)) = true.
 Proof. vm_compute. repeat split. Qed.
+
+(* ==================================================================== positive theorems (agent position-bind)
+   Proofs/PositionBind*.v.  Guards (all boolean, computed from the program alone):
+     in_fragment P         the core fragment of Spec/LuaScope.v;
+     Laid2 P               = exists W, laid2_b W P = true: the layout hypothesis `Laid` with the Locs of EMPTY
+                             if-branches included, plus shape_ok P (one block per if-condition, one Loc per local name,
+                             and no function expression in the STEP of a numeric for = class B5 excluded program-wide);
+     no_repoint P          no assignment `n = <name | call | function>` to a name that a local of the file carries while
+                             declared without a value (class B4 excluded program-wide);
+     classB_ok o           the occurrence carries no class tag (B1 B2 B3 per occurrence). *)
+From LH Require Import Proofs.PositionBindBase Proofs.PositionBindShape Proofs.PositionBindFinal Proofs.PositionBindWitness.
+
+(* the statement `C05_define_local_partial_stmt` as written (guard `Laid`) is false: `Laid` does not constrain the Loc
+   of an empty if-branch, which FindMinScope's early exit reads (hand-built AST, not a parser output) *)
+Theorem C05_define_local_partial_stmt_refuted : ~ C05_define_local_partial_stmt.
+Proof. exact define_local_partial_stmt_refuted. Qed.
+Print Assumptions C05_define_local_partial_stmt_refuted.
+
+(* layer 1: the scope tree built by the traversal is the skeleton (a pure function of the AST), up to the
+   re-pointing of entries by cgAssignStat - for every program of the fragment *)
+Theorem C05_scope_tree_is_skeleton : forall P,
+  in_fragment P = true -> shape_ok P = true -> sstep (asg_block P) (sk_root P) (fi_root (analyse P)).
+Proof. intros P H1 H2. apply analyse_shape. split; assumption. Qed.
+Print Assumptions C05_scope_tree_is_skeleton.
+
+(* layers 1-2: FindMinScope is complete - at every cursor column of every (non-declaring) occurrence, the chain it
+   returns contains, for each declaration in the environment of Lua's binder at that occurrence, an entry with that
+   name and Loc, declared before the cursor *)
+Theorem C05_chain_covers_binder_env : forall P,
+  in_fragment P = true -> Laid2 P -> no_repoint P = true ->
+  forall o, In o (bind_file P) -> is_decl (s_role o) = false ->
+  forall col, (sc (s_loc o) <= col <= ec (s_loc o))%Z ->
+  forall x, In x (s_env o) ->
+  exists vars v, In vars (chain_at (analyse P) (sl (s_loc o)) col) /\ In v vars /\
+                 v_name v = fst (fst x) /\ v_loc v = snd (fst x) /\ decl_before (sl (s_loc o)) col v = true.
+Proof. exact chain_covers_env. Qed.
+Print Assumptions C05_chain_covers_binder_env.
+
+(* layer 3 = the theorem: go-to-definition on a local follows Lua's scoping.  For every laid-out program of the
+   fragment outside classes B4/B5, every untagged occurrence (declaration, read or write) that Lua binds to a local
+   declaration d, and every cursor column on the identifier (both ends), the position resolver answers d *)
+Theorem C05_define_local_partial : forall P,
+  in_fragment P = true -> Laid2 P -> no_repoint P = true -> define_local_at classB_ok P.
+Proof. exact define_local_core. Qed.
+Print Assumptions C05_define_local_partial.
+
+(* the guards are satisfiable by non-trivial parsed programs: src_ok (33 occurrences) and src_core (43 occurrences:
+   function statement, numeric and generic for, if with an empty branch, a function in a while condition, multiple
+   assignment from a call, a local declared without value and assigned an arithmetic expression, repeat-until) *)
+Example C05_core_guards_nonvacuous :
+  core_guards_b 1000%Z (chunk_of src_ok) = true /\ all_class_ok (chunk_of src_ok) = true /\
+  core_guards_b 1000%Z (chunk_of src_core) = true /\ all_class_ok (chunk_of src_core) = true /\
+  length (bind_file (chunk_of src_core)) = 43%nat /\
+  forallb (fun o => negb (deviates_at_start (chunk_of src_core) o)) (bind_file (chunk_of src_core)) = true.
+Proof. vm_compute. repeat split. Qed.
